@@ -701,32 +701,17 @@ func (x *Executor) assumeAllocated(st *State, v Val) {
 	switch v.Ty.Underlying().(type) {
 	case *types.Pointer, *types.Map:
 		u.ensureAllocComp()
-		u.assume(fmt.Sprintf("(or (= %s 0) (select %s %s))", v.T, x.heapGet(st, allocComp), v.T))
+		u.assume(fmt.Sprintf("(or (= %s 0) (select %s (refroot %s)))", v.T, x.heapGet(st, allocComp), v.T))
 	case *types.Slice:
 		u.ensureAllocComp()
-		u.assume(fmt.Sprintf("(or (= (s.base %s) 0) (select %s (s.base %s)))", v.T, x.heapGet(st, allocComp), v.T))
+		u.assume(fmt.Sprintf("(or (= (s.base %s) 0) (select %s (refroot (s.base %s))))", v.T, x.heapGet(st, allocComp), v.T))
 	case *types.Interface:
 		// dynamic pointer payloads: allocated or boxed ids (boxed ids are not in alloc but never compared with refs of the same type)
 	}
 }
 
 func (x *Executor) loadStructObj(st *State, ref string, structT types.Type) string {
-	u := x.u
-	u.sortOf(structT)
-	s := structT.Underlying().(*types.Struct)
-	var parts []string
-	for i := 0; i < s.NumFields(); i++ {
-		comp, _ := u.fieldComp(structT, s.Field(i).Name())
-		parts = append(parts, fmt.Sprintf("(select %s %s)", x.heapGet(st, comp), ref))
-	}
-	for _, g := range u.ghostFields(structT) {
-		comp, _ := u.fieldComp(structT, g.name)
-		parts = append(parts, fmt.Sprintf("(select %s %s)", x.heapGet(st, comp), ref))
-	}
-	if len(parts) == 0 {
-		return u.structCtor(structT)
-	}
-	return "(" + u.structCtor(structT) + " " + strings.Join(parts, " ") + ")"
+	return x.u.structObjTerm(func(c string) string { return x.heapGet(st, c) }, ref, structT)
 }
 
 func (x *Executor) storeStructObj(st *State, ref string, structT types.Type, val string) {
@@ -734,8 +719,20 @@ func (x *Executor) storeStructObj(st *State, ref string, structT types.Type, val
 	u.sortOf(structT)
 	s := structT.Underlying().(*types.Struct)
 	for i := 0; i < s.NumFields(); i++ {
+		ft := s.Field(i).Type()
+		fv := fmt.Sprintf("(%s %s)", u.fieldAcc(structT, i), val)
+		if isFlattened(ft) {
+			sr := u.subRef(structT, s.Field(i).Name(), ref)
+			if at, ok := ft.Underlying().(*types.Array); ok {
+				comp, _ := u.elemComp(at.Elem())
+				x.heapSet(st, comp, fmt.Sprintf("(store %s %s %s)", x.heapGet(st, comp), sr, fv))
+			} else {
+				x.storeStructObj(st, sr, ft, fv)
+			}
+			continue
+		}
 		comp, _ := u.fieldComp(structT, s.Field(i).Name())
-		x.heapSet(st, comp, fmt.Sprintf("(store %s %s (%s %s))", x.heapGet(st, comp), ref, u.fieldAcc(structT, i), val))
+		x.heapSet(st, comp, fmt.Sprintf("(store %s %s %s)", x.heapGet(st, comp), ref, fv))
 	}
 	for _, g := range u.ghostFields(structT) {
 		comp, _ := u.fieldComp(structT, g.name)
@@ -817,7 +814,7 @@ func (x *Executor) allocRef(st *State, hint string) string {
 	u.ensureAllocComp()
 	r := u.freshConst("new$"+hint, "Int")
 	al := x.heapGet(st, allocComp)
-	u.assume(fmt.Sprintf("(and (> %s 0) (not (select %s %s)))", r, al, r))
+	u.assume(fmt.Sprintf("(and (> %s 0) (not (select %s %s)) (= (refkind %s) 0) (= (refroot %s) %s))", r, al, r, r, r, r))
 	x.heapSet(st, allocComp, fmt.Sprintf("(store %s %s true)", al, r))
 	return r
 }
